@@ -192,8 +192,16 @@ DEEP_SET = ["StmtStmtList", "StmtIf/else", "StmtElse", "StmtIf", "StmtWhile", "S
             "Parameter", "ExprAssign", "ExprArray/short", "ExprArrayItem"]
 
 
-def deep_sources(check, family, seed, num, depth=14):
-    """programs nested many blocks deep (SyntaxGen with a large depth budget over the block-forming variants only)"""
+def deep_programs(check, wp, family, seed, num, depth=14, layouts=("none",), vers=None):
+    """the same derivations as deep_sources, run like every other generated program (expected tree, spans, printing)"""
+    table, behs = _deep_derivations(check, family, seed, num, depth)
+    res = run_programs(check, wp, family, behs, table, seed, list(layouts), vers or VERS[family][:1])
+    for m, t, r in res:
+        m["i"] += 7000000
+    return res
+
+
+def _deep_derivations(check, family, seed, num, depth):
     table, _ = syntax.generate(check, family, num=1, seed=seed, depth=1)
     byid = {v["id"]: v for v in table["variants"]}
     ids = {i for i in DEEP_SET if i in byid and byid[i]["fam"] in ("both", family)}
@@ -213,7 +221,12 @@ def deep_sources(check, family, seed, num, depth=14):
                    [v["id"] for v in table["variants"] if c in v["cats"] and v["fam"] in ("both", family)]
             if cand:
                 ids.add(cand[0])
-    table, behs = syntax.generate(check, family, rootcat="stmt", rootmax=1, depth=depth, num=num, seed=seed + 41, allowed=sorted(ids), maxchoices=250)
+    return syntax.generate(check, family, rootcat="stmt", rootmax=1, depth=depth, num=num, seed=seed + 41, allowed=sorted(ids), maxchoices=250)
+
+
+def deep_sources(check, family, seed, num, depth=14):
+    """programs nested many blocks deep (SyntaxGen with a large depth budget over the block-forming variants only)"""
+    table, behs = _deep_derivations(check, family, seed, num, depth)
     ex = expand_all(table, behs, seed, ["none"])
     out = [e["variants"][0]["src"] for e in ex if not e.get("skip")]
     return sorted(set(out), key=lambda x: -len(x))
